@@ -1,5 +1,6 @@
 """C01 / C02 - the learned distance is the Euclidean semi-norm of a linear
 image of the point difference, and all views share the word L^T L."""
+import ast
 from fractions import Fraction
 from ..model import FuncInfo
 from ..engine import Engine, V, NOCONST
@@ -234,8 +235,24 @@ def check_views(repo, rep, which):
     if 'get_mahalanobis_matrix' in views:
       f, forms, _ = views['get_mahalanobis_matrix']
       key = c.name + '.get_mahalanobis_matrix'
+      # entries of the returned matrix overwritten after it was computed
+      overwritten = None
+      rets = [r for r in ast.walk(f.node) if isinstance(r, ast.Return) and
+              isinstance(r.value, ast.Name)]
+      for r in rets:
+        for n_ in ast.walk(f.node):
+          if isinstance(n_, ast.Assign) and \
+                  isinstance(n_.targets[0], ast.Subscript) and \
+                  isinstance(n_.targets[0].value, ast.Name) and \
+                  n_.targets[0].value.id == r.value.id and \
+                  isinstance(n_.value, ast.Constant):
+            overwritten = n_
       for d in forms:
-        if has_unknown(d):
+        if has_unknown(d) and overwritten is not None:
+          rep.refuted(RM, key, site(f, overwritten), 'entries of the '
+                      'returned matrix are overwritten with a constant (%s): '
+                      'the result is no longer L\'.L' % ast.unparse(overwritten))
+        elif has_unknown(d):
           rep.unknown(RM, key, site(f), 'normal form not derivable')
         elif d == LT_L:
           rep.derived(RM, key, site(f))
